@@ -588,7 +588,7 @@ async fn main() {
     jump_e2e(&mut ctx, &mut a, &mut b, &mut f, &mut g, &mut out, tb + 500_000).await;
     // ---- the same on generated multi-author histories (prepare_room_node on validly signed rows)
     let mut jstats: HashMap<String, u64> = HashMap::new();
-    jump_cases(&mut rng, &mut ctx, &mut out, scale(45, 500), &mut jstats);
+    jump_cases(&mut rng, &mut ctx, &mut out, scale(28, 500), &mut jstats);
     eprintln!("c10 jumps: {:?}", jstats);
     let n = scale(110, 1500);
     for i in 0..n {
